@@ -23,6 +23,7 @@ from typing import Any, Dict, List, Set, Tuple
 # 📥 Project-Specific Imports
 # -----------------------------------------------------------------------------
 from ..actions import is_builtin as _is_builtin_action
+from ..models import COMPOSITE_GUARD_TYPES
 from .ir import parse_guard
 
 # -----------------------------------------------------------------------------
@@ -72,6 +73,40 @@ def _extract_actions(data: Any, actions: Set[str]) -> None:
         actions.add(name)
 
 
+def _extract_guards(guard: Any, guards: Set[str]) -> None:
+    """
+    Extracts the leaf guard names from a guard, recursing through composites.
+
+    Args:
+        guard (Any): 📝 The guard reference: a name, or a (possibly composite) dict.
+        guards (Set[str]): 🛡️ The set to which extracted guard names are added.
+    """
+    # 🌳 The operands of `and` / `or` / `not` are read from every place
+    #    `models.GuardDefinition` accepts them: `children`, else
+    #    `params.guards`, else `params.children`, else the single
+    #    `params.guard`. `parse_guard` knows `params.guards` only, so a guard
+    #    nested under any other spelling never got a stub and the generated
+    #    runner died with ImplementationMissingError at start-up.
+    operands: Any = None
+    if isinstance(guard, dict) and guard.get("type") in COMPOSITE_GUARD_TYPES:
+        params = guard.get("params")
+        if not isinstance(params, dict):
+            params = {}
+        operands = (
+            guard.get("children")
+            or params.get("guards")
+            or params.get("children")
+            or params.get("guard")
+        )
+    if operands:
+        for operand in operands if isinstance(operands, list) else [operands]:
+            _extract_guards(operand, guards)
+        return
+    parsed = parse_guard(guard)
+    if parsed is not None:
+        guards.update(parsed.leaf_names())
+
+
 def _extract_from_transition(
     transition_data: Any, actions: Set[str], guards: Set[str]
 ) -> None:
@@ -110,9 +145,7 @@ def _extract_from_transition(
         #    generated module does not even compile.
         guard_key = "cond" if "cond" in trans else "guard"
         if guard_key in trans:
-            parsed = parse_guard(trans[guard_key])
-            if parsed is not None:
-                guards.update(parsed.leaf_names())
+            _extract_guards(trans[guard_key], guards)
 
 
 def _traverse_and_extract(
@@ -155,6 +188,12 @@ def _traverse_and_extract(
                 for key in ("onDone", "onError"):
                     if key in invoke:
                         _extract_from_transition(invoke[key], actions, guards)
+
+    # 🏁 A compound/parallel state's own completion transition. Skipped before,
+    #    so an action or guard used only by `onDone` never got a stub and the
+    #    generated runner died with ImplementationMissingError at start-up.
+    if "onDone" in node:
+        _extract_from_transition(node["onDone"], actions, guards)
 
     # ⚡ Process eventless ("always") transitions. Previously skipped, so a
     #    guard used only by `always` was never emitted and the generated
